@@ -199,7 +199,8 @@ pub fn run_c04(a: &Args, shared: &SharedReport) {
         let mut r = shared.lock().unwrap();
         r.rule = "every value of each family within the bound, built in every insertion order/capacity/hasher instance; all unordered pairs within a family are decided by grouping on the recorded hasher stream, on the real fingerprint and on the harness's component-wise identity; non-trivial = the family has >= 2 distinct identities".into();
         r.bounds = json!({"sets": "HashableHashSet<u8> over {0,1,2}", "maps": "HashableHashMap<u8,u8> keys {0,1,2} values {0,1}", "nesting": "set of sets, map of sets, (S,S), [S;2], Vec<S> len<=3, struct of two sets, Vec<Timers> len<=3",
-            "networks": if th {"<=3 envelopes per kind"} else {"<=2 envelopes per kind"}, "clocks": "len<=3 components<=2", "actor_states": "all constructed states per kind (pairs) + all reachable states of the zoo per cfg (pairs)"});
+            "networks": if th {"<=3 envelopes per kind"} else {"<=2 envelopes per kind"}, "clocks": "len<=3 components<=2", "actor_states": "all constructed states per kind (pairs) + all reachable states of the zoo per cfg (pairs)",
+            "testers": if th {"both testers over Register<char>: every well-formed history of 2 threads <=3 ops and 3 threads <=2 ops, start objects i/a (+b)"} else {"both testers over Register<char>: every well-formed history of 2 threads <=3 ops, start objects i/a (+b)"}});
     }
     let mut fam_idx = 0u64;
     let mut mine = |shared: &SharedReport, f: &mut dyn FnMut(&mut Report)| {
@@ -460,4 +461,122 @@ pub fn run_c04(a: &Args, shared: &SharedReport) {
             });
         }
     }
+    // 11. the consistency testers as values (they are the `history` component of register-harness states):
+    //     every well-formed history within the bound, both testers, three start objects
+    for threads in if th { vec![2u8, 3u8] } else { vec![2u8] } {
+        for init in ['i', 'a'] {
+            mine(shared, &mut |r| {
+                let max_ops = if threads == 2 { 3 } else { 2 };
+                let mut lin_vals = Vec::new();
+                let mut sc_vals = Vec::new();
+                tester_histories(threads, max_ops, &mut |h| {
+                    let (l, s) = build_testers(init, h);
+                    lin_vals.push((l, format!("init={init} {}", tester_canon(h, threads, true))));
+                    sc_vals.push((s, format!("init={init} {}", tester_canon(h, threads, false))));
+                });
+                if init == 'i' {
+                    // the same histories from another start object must be different values
+                    tester_histories(threads, 1, &mut |h| {
+                        let (l, s) = build_testers('b', h);
+                        lin_vals.push((l, format!("init=b {}", tester_canon(h, threads, true))));
+                        sc_vals.push((s, format!("init=b {}", tester_canon(h, threads, false))));
+                    });
+                }
+                check_family(r, "linearizability-tester", &lin_vals, lin_vals.len() < 2500);
+                check_family(r, "sequential-consistency-tester", &sc_vals, sc_vals.len() < 2500);
+                eq_against_neighbours(r, "linearizability-tester", &mut lin_vals);
+                eq_against_neighbours(r, "sequential-consistency-tester", &mut sc_vals);
+            });
+        }
+    }
+}
+
+/// `==` against the harness identity for the pairs adjacent in canonical order (every value against a value
+/// of the same identity when one exists, and against the nearest different one) - linear instead of quadratic.
+fn eq_against_neighbours<T: PartialEq + Debug>(r: &mut Report, fam: &str, vals: &mut Vec<(T, String)>) {
+    vals.sort_by(|a, b| a.1.cmp(&b.1));
+    for i in 1..vals.len() {
+        let same = vals[i - 1].1 == vals[i].1;
+        let eq = vals[i - 1].0 == vals[i].0;
+        r.transitions += 1;
+        if eq != same {
+            r.violation(&format!("e4:{fam}:{}", if eq { "eq-merges-distinct" } else { "eq-splits-equal" }), format!("{:?} == {:?} is {eq} but component-wise identity is {same} ({} vs {})", vals[i - 1].0, vals[i].0, vals[i - 1].1, vals[i].1), json!({"engine": "e4", "family": fam, "a": vals[i - 1].1, "b": vals[i].1}));
+        }
+    }
+}
+
+use crate::engines::e5::Ev;
+use stateright::semantics::register::*;
+use stateright::semantics::*;
+
+const T_OPS: [RegisterOp<char>; 3] = [RegisterOp::Write('a'), RegisterOp::Write('b'), RegisterOp::Read];
+const T_RETS: [RegisterRet<char>; 3] = [RegisterRet::WriteOk, RegisterRet::ReadOk('a'), RegisterRet::ReadOk('i')];
+
+/// every well-formed event sequence over `threads` threads with at most `max_ops` invocations
+fn tester_histories(threads: u8, max_ops: usize, f: &mut dyn FnMut(&[Ev])) {
+    fn go(h: &mut Vec<Ev>, infl: &mut Vec<bool>, nops: usize, threads: u8, max_ops: usize, f: &mut dyn FnMut(&[Ev])) {
+        f(h);
+        for t in 0..threads {
+            if infl[t as usize] {
+                for r in 0..T_RETS.len() {
+                    h.push(Ev::Ret(t, r));
+                    infl[t as usize] = false;
+                    go(h, infl, nops, threads, max_ops, f);
+                    infl[t as usize] = true;
+                    h.pop();
+                }
+            } else if nops < max_ops {
+                for o in 0..T_OPS.len() {
+                    h.push(Ev::Inv(t, o));
+                    infl[t as usize] = true;
+                    go(h, infl, nops + 1, threads, max_ops, f);
+                    infl[t as usize] = false;
+                    h.pop();
+                }
+            }
+        }
+    }
+    go(&mut Vec::new(), &mut vec![false; threads as usize], 0, threads, max_ops, f);
+}
+
+fn build_testers(init: char, h: &[Ev]) -> (LinearizabilityTester<u8, Register<char>>, SequentialConsistencyTester<u8, Register<char>>) {
+    let mut l = LinearizabilityTester::new(Register(init));
+    let mut s = SequentialConsistencyTester::new(Register(init));
+    for e in h {
+        match e {
+            Ev::Inv(t, o) => {
+                l.on_invoke(*t, T_OPS[*o].clone()).expect("well-formed");
+                s.on_invoke(*t, T_OPS[*o].clone()).expect("well-formed");
+            }
+            Ev::Ret(t, x) => {
+                l.on_return(*t, T_RETS[*x].clone()).expect("well-formed");
+                s.on_return(*t, T_RETS[*x].clone()).expect("well-formed");
+            }
+        }
+    }
+    (l, s)
+}
+
+/// The information content of a tester after history `h`, computed from the history alone: per thread
+/// the completed (operation, return) pairs in order and the operation in flight; for the linearizability
+/// tester additionally, per operation, how many operations of each other thread had completed when it was
+/// invoked (its real-time predecessors). Two histories with the same content are the same tester value.
+fn tester_canon(h: &[Ev], threads: u8, real_time: bool) -> String {
+    let mut done: Vec<Vec<String>> = vec![Vec::new(); threads as usize];
+    let mut infl: Vec<Option<String>> = vec![None; threads as usize];
+    let mut seen: Vec<bool> = vec![false; threads as usize];
+    for e in h {
+        match e {
+            Ev::Inv(t, o) => {
+                seen[*t as usize] = true;
+                let rt: Vec<usize> = (0..threads as usize).map(|p| if p == *t as usize { 0 } else { done[p].len() }).collect();
+                infl[*t as usize] = Some(if real_time { format!("{:?}@{:?}", T_OPS[*o], rt) } else { format!("{:?}", T_OPS[*o]) });
+            }
+            Ev::Ret(t, x) => {
+                let o = infl[*t as usize].take().expect("well-formed");
+                done[*t as usize].push(format!("{o}->{:?}", T_RETS[*x]));
+            }
+        }
+    }
+    format!("seen={:?} done={:?} inflight={:?}", seen, done, infl)
 }
